@@ -75,7 +75,9 @@ fn main() {
         std::process::exit(2);
     }
     // panics of the code under test are caught and reported as data; keep stderr quiet
-    std::panic::set_hook(Box::new(|_| {}));
+    if std::env::var("VERIF_SHOW_PANICS").is_err() {
+        std::panic::set_hook(Box::new(|_| {}));
+    }
     let rest = &args[1..];
     match args[0].as_str() {
         "replay" => replay::main(rest),
